@@ -221,31 +221,19 @@ def Ep.weekdayInCivil (e : Ep) (ts : TS) : Option Int :=
 /-- `Epoch::weekday_of_gregorian_date`: weekday of the date in the epoch's own scale -/
 def Ep.weekdayOwn (e : Ep) : Int := weekdayOfDur (Dur.add e.dur (Cal.gregorianEpochOffset e.ts))
 
-/-- `Epoch::next(weekday)` -/
-def Ep.next (e : Ep) (w : Int) : Option Ep :=
-  match e.weekdayIn .TAI with
-  | none => none
-  | some cur =>
-    let delta := wdDiff cur w
-    some ⟨Dur.add e.dur (if Dur.eqb delta Dur.ZERO then Dur.unitMulI64 Gen.NANOSECONDS_PER_DAY 7 else delta), e.ts⟩
-
-/-- `Epoch::previous(weekday)` -/
-def Ep.previous (e : Ep) (w : Int) : Option Ep :=
-  match e.weekdayIn .TAI with
-  | none => none
-  | some cur =>
-    let delta := wdDiff w cur
-    some ⟨Dur.sub e.dur (if Dur.eqb delta Dur.ZERO then Dur.unitMulI64 Gen.NANOSECONDS_PER_DAY 7 else delta), e.ts⟩
-
-/-- `next_on_own_calendar` / `previous_on_own_calendar` (private helpers of the `*_weekday_at_midnight/_at_noon`
-    functions since fix 256c054): like `next`/`previous` with the weekday of the date in the epoch's own scale -/
+/-- `Epoch::next(weekday)` (since fix 2e58fb7): the weekday is that of the calendar date in the epoch's OWN scale,
+    the one in whose count the whole days are then added -/
 def Ep.nextOwn (e : Ep) (w : Int) : Ep :=
   let delta := wdDiff e.weekdayOwn w
   ⟨Dur.add e.dur (if Dur.eqb delta Dur.ZERO then Dur.unitMulI64 Gen.NANOSECONDS_PER_DAY 7 else delta), e.ts⟩
 
+/-- `Epoch::previous(weekday)` -/
 def Ep.previousOwn (e : Ep) (w : Int) : Ep :=
   let delta := wdDiff w e.weekdayOwn
   ⟨Dur.sub e.dur (if Dur.eqb delta Dur.ZERO then Dur.unitMulI64 Gen.NANOSECONDS_PER_DAY 7 else delta), e.ts⟩
+
+def Ep.next (e : Ep) (w : Int) : Option Ep := some (e.nextOwn w)
+def Ep.previous (e : Ep) (w : Int) : Option Ep := some (e.previousOwn w)
 
 /-- arithmetic fallback of `with_hms_strict` (taken only if the calendar date cannot be rebuilt): for a negative duration
     the day that contains it starts at the whole days at or below it -/
